@@ -734,8 +734,68 @@ fn witnesses() -> Vec<(&'static str, &'static str, &'static str, fn(&Real) -> bo
 
 const ALPHABET: &[&str] = &["", "text", "# h", "---", "```", "```scrut", "```scrut {timeout: 1s}", "````scrut", "```python", "``x``", "$ cmd", "> more", "out", "[1]", "# c"];
 
+/// The binary reads Markdown documents through `FileParser` (src/bin/utils/file_parser.rs), with or without
+/// `--cram-compat`: in both modes a scrut block is ONE test, lines behind the command that start with `$ ` or `> `
+/// (after output) are expectations, prose never creates tests. Every test carries an expectation that cannot match,
+/// so that `-r json` shows how each test case was read (shell expression, expectations, title).
+fn e2e_file_parser_case(prop: &str, idx: u64) -> CaseRec {
+    let compat = idx % 2 == 1;
+    let shape = (idx / 2) % 4;
+    let root = std::env::temp_dir().join(format!("scrut-verif-md-e2e-{}-{idx}", std::process::id()));
+    let _ = std::fs::remove_dir_all(&root);
+    std::fs::create_dir_all(root.join("tmp")).unwrap();
+    // (title, command lines, expectation lines) per block, as written
+    let blocks: Vec<(&str, Vec<&str>, Vec<&str>)> = match shape {
+        0 => vec![("transcript", vec!["echo session"], vec!["$ looks like a command", "never-matches"]), ("second", vec!["echo two"], vec!["never-matches"])],
+        1 => vec![("continued", vec!["echo a \\", "  b"], vec!["a b", "> quoted mail", "$ prompt", "never-matches"])],
+        2 => vec![("first", vec!["echo one"], vec!["never-matches", "$ trailing prompt"]), ("mid", vec!["echo mid"], vec!["$ x", "$ y", "never-matches"]), ("last", vec!["echo last"], vec!["never-matches"])],
+        _ => vec![("plain", vec!["echo plain"], vec!["never-matches"])],
+    };
+    let mut doc = String::from("Some prose with a $ dollar and\n$ a line that starts like a command\n\n");
+    for (title, cmd, exps) in &blocks {
+        doc.push_str(&format!("# {title}\n\n```scrut\n$ {}\n", cmd[0]));
+        for c in &cmd[1..] {
+            doc.push_str(&format!("> {c}\n"));
+        }
+        for e in exps {
+            doc.push_str(e);
+            doc.push('\n');
+        }
+        doc.push_str("```\n\n$ prose again\n\n");
+    }
+    std::fs::write(root.join("doc.md"), &doc).unwrap();
+    let mut cmd = std::process::Command::new(std::env::var("SCRUT_BIN").unwrap_or("/verif/.build/repo-target/debug/scrut".into()));
+    cmd.arg("test").arg("-r").arg("json");
+    if compat {
+        cmd.arg("--cram-compat");
+    }
+    let out = cmd.arg("doc.md").current_dir(&root).env("TMPDIR", root.join("tmp")).env("NO_COLOR", "1").output().expect("run scrut");
+    let stdout = String::from_utf8_lossy(&out.stdout).to_string();
+    let json: Option<serde_json::Value> = stdout.find('[').and_then(|p| serde_json::from_str(&stdout[p..]).ok());
+    let mut got: Vec<(String, String, Vec<String>)> = vec![];
+    if let Some(serde_json::Value::Array(items)) = &json {
+        for it in items {
+            let tc = it.get("testcase").cloned().unwrap_or_default();
+            got.push((
+                tc.get("title").and_then(|t| t.as_str()).unwrap_or("").to_string(),
+                tc.get("shell_expression").and_then(|t| t.as_str()).unwrap_or("").to_string(),
+                tc.get("expectations").and_then(|e| e.as_array()).map(|a| a.iter().map(|x| x.as_str().unwrap_or("?").to_string()).collect()).unwrap_or_default(),
+            ));
+        }
+    }
+    let want: Vec<(String, String, Vec<String>)> = blocks.iter().map(|(t, c, e)| (t.to_string(), c.join("\n"), e.iter().map(|x| x.to_string()).collect())).collect();
+    let mut fails = vec![];
+    if got != want {
+        fails.push(("C06:file-parser-e2e".to_string(), format!("`scrut test{} doc.md` read {:?}, written {:?} (exit {:?}, stderr {})", if compat { " --cram-compat" } else { "" }, got, want, out.status.code(), String::from_utf8_lossy(&out.stderr).chars().take(200).collect::<String>())));
+    }
+    let _ = std::fs::remove_dir_all(&root);
+    CaseRec { op: "noop".into(), impl_out: "ok".into(), oracle_fail: fails.into_iter().filter(|(c, _)| c.starts_with(prop)).collect(), nontrivial: true, tags: vec![format!("e2e-file-parser:cram-compat={compat}"), format!("e2e-file-parser:shape={shape}")] }
+}
+
 pub fn run(ctx: &Ctx, prop: &str) {
     let seed = ctx.seed;
+    // 0. the binary's way to the parser (FileParser), with and without --cram-compat
+    ctx.run_stream("e2e-file-parser-exhaustive", 8, true, |idx| Some(e2e_file_parser_case(prop, idx)));
     // 1. AST-directed documents, expected tests known by construction
     let n = if ctx.thorough { 400_000 } else { 30_000 };
     ctx.run_stream("ast-by-construction", n, false, |idx| {
